@@ -86,25 +86,32 @@ class World:
             env.cons.select_n_k_length_slices_from_chain = pw.select_n_k_length_slices_from_chain
             env.sg.ecdsa = ecdsa
             self._sks = [ecdsa.SigningKey.from_secret_exponent(1000 + i, curve=ecdsa.SECP256k1) for i in range(4)]
-            self.sample = lambda sh, height, get: pw.select_n_k_length_slices_from_chain(sh, height, get, 8, 4)
+            if self.h <= 16:
+                self.sample = lambda sh, height, get: pw.select_n_k_length_slices_from_chain(sh, height, get, 8, 4)
+            else:
+                # a world at a large height has no real ancestors to sample from: the oracle stands in (stated in the replay)
+                self._install_sample_oracle()
         else:
             from symlib.stubs.oracles import TI, install_hashes
             from symlib.stubs import idealsig
             self.sha256d, self.blake2, self.scrypt = TI(b"\x01"), TI(b"\x02"), TI(b"\x03")
             install_hashes(self.sha256d, self.blake2, self.scrypt)
             self.ideal = idealsig.install()
-            self.sample_log: List[Tuple[int, bytes]] = []
+            self._install_sample_oracle()
 
-            def sample(sh: bytes, height: int, get: Callable[[int], Any]) -> bytes:
-                # chain-sample oracle: a deterministic injective function of (summary hash, the ancestor view's
-                # blocks at height-1 and 0); the real sampler is the subject of C05.e(ii).
-                top = get(height - 1).hash()
-                root = get(0).hash() if height - 1 > 0 else top
-                self.sample_log.append((height, top))
-                return b"CS" + top[:2] + root[:2] + bytes([len(sh) & 0xFF]) + sh[-4:] + b"\x00" * 21
+    def _install_sample_oracle(self) -> None:
+        self.sample_log: List[Tuple[int, bytes]] = []
 
-            self.sample = sample
-            env.cons.select_n_k_length_slices_from_chain = lambda sh, height, get, n, k: sample(sh, height, get)
+        def sample(sh: bytes, height: int, get: Callable[[int], Any]) -> bytes:
+            # chain-sample oracle: a deterministic injective function of (summary hash, the ancestor view's blocks at
+            # height-1 and height-2); the real sampler is the subject of C05.e(ii).
+            top = get(height - 1).hash()
+            below = get(height - 2).hash() if height >= 2 else top
+            self.sample_log.append((height, top))
+            return b"CS" + top[:2] + below[:2] + bytes([len(sh) & 0xFF]) + sh[-4:] + b"\x00" * 21
+
+        self.sample = sample
+        self.env.cons.select_n_k_length_slices_from_chain = lambda sh, height, get, n, k: sample(sh, height, get)
 
     def pubkey(self, i: int) -> Any:
         if self.real:
@@ -118,7 +125,7 @@ class World:
         return self.ideal.registry.sign(self.keys[i].public_key, message)
 
     # -- chain state ----------------------------------------------------------------------------
-    def state(self, pv: List[int], extra_at_head_only: bool = False) -> Any:
+    def state(self, pv: List[int], fv: int = 9) -> Any:
         """CoinState holding R, P, F. pv = the four symbolic values of P's unspent outputs."""
         env, dt = self.env, self.dt
         k = self.keys
@@ -126,7 +133,7 @@ class World:
         cb = lambda tx: (dt.OutputReference(tx.hash(), 0), tx.outputs[0])  # noqa
         uR = env.mk_map(outs_P + [(dt.OutputReference(tok(TX, 14), 0), dt.Output(7, k[0])), cb(self.cbR)])
         uP = env.mk_map(outs_P + [cb(self.cbR), cb(self.cbP)])
-        uF = env.mk_map(outs_P[:2] + [(dt.OutputReference(tok(TX, 13), 0), dt.Output(9, k[0])), cb(self.cbR), cb(self.cbF)])
+        uF = env.mk_map(outs_P[:2] + [(dt.OutputReference(tok(TX, 13), 0), dt.Output(fv, k[0])), cb(self.cbR), cb(self.cbF)])
         R, P, F = self.R, self.P, self.F
         iR = env.mk_map([(R.height, R)])
         iP = env.mk_map([(R.height, R), (P.height, P)])
